@@ -105,6 +105,7 @@ func C16(c *Ctx) int {
 	}
 	c.runParseCheck(o, parseCheck{Func: "H_Tree", Label: "parse.Bounds", Grammars: gs,
 		MaxNQuick: 5, MaxNThor: 8, ReachAny: []string{"accepted"}})
+	c.boundsLayouts(o)
 	o.Assumptions = []string{"expected _onBounds calls are derived from the checked derivation tree: one per non-empty user node right after its action, one per helper reduction (list so far, optional value)",
 		"'changes nothing else': the +B twin passes the same derivation-tree check as the plain item of C03, and the tree is unique"}
 	o.Outside = []string{"x*! items (span of dropped elements undocumented)", "grammars outside the corpus"}
@@ -129,4 +130,46 @@ func C09(c *Ctx) int {
 	o.Assumptions = []string{"step budget 3,000,000 SSA instructions per path (a parse of 6 tokens takes < 20,000); an overrun is replayed natively with a 20 s limit and reported only if the native run does not finish either"}
 	o.Outside = []string{"grammars outside the corpus", "long inputs with bursts of errors"}
 	return c.Finish(o)
+}
+
+// boundsLayouts: C16 on hand-written parser types (actions of interface type,
+// nil results).
+func (c *Ctx) boundsLayouts(o *Outcome) {
+	items, err := c.Generate(nil, nil, corpus.BoundsLayouts()...)
+	if err != nil {
+		o.Broken = append(o.Broken, "bounds layouts: "+err.Error())
+		return
+	}
+	prog, err := c.LoadGen()
+	if err != nil {
+		o.Broken = append(o.Broken, "bounds layouts: load: "+err.Error())
+		return
+	}
+	maxN := 6
+	if c.Thorough() {
+		maxN = 9
+	}
+	byName := map[string]*GenItem{}
+	for _, it := range items {
+		if !(it.ExitOK && it.Files) {
+			o.Broken = append(o.Broken, "bounds layouts: lox does not generate "+it.Name+": "+firstN(it.Stderr, 300))
+			continue
+		}
+		for n := 0; n <= maxN; n++ {
+			h := Harness{Name: fmt.Sprintf("parse.NilBounds[%s,n=%d]", it.Name, n), Func: "H_NilBounds", Params: map[string]int{"n": n}, Quiet: true,
+				Bounds: fmt.Sprintf("all token sequences of length %d", n)}
+			if n == maxN {
+				h.Reach = []string{"accepted", "nil-result"}
+			}
+			r, err := c.RunGenHarness(prog, it, h)
+			if err != nil {
+				o.Broken = append(o.Broken, err.Error())
+				continue
+			}
+			o.Add(r)
+			byName[r.H.Name] = it
+			c.HandleGenCex(o, it, r)
+		}
+	}
+	c.ValidateSamples(o, byName, 3)
 }
